@@ -49,8 +49,10 @@ impl Iterator for CountIter {
         match self.inf {
             Some(_) => (usize::MAX, None),
             None => {
+                // exact for inputs of even length, honest but loose (lower bound 0) for odd ones - what
+                // a filtered or flat-mapped iterator reports
                 let rem = self.xs.len().saturating_sub(self.pos);
-                (rem, Some(rem))
+                (if self.xs.len() % 2 == 0 { rem } else { 0 }, Some(rem))
             }
         }
     }
